@@ -5,6 +5,7 @@ mod dec;
 mod farm;
 mod gen;
 mod p_builders;
+mod p_features;
 mod p_generics;
 mod p_negative;
 mod p_values;
@@ -12,7 +13,11 @@ mod props;
 
 fn main() {
     if std::env::args().nth(1).as_deref() == Some("warm") {
-        for f in [&p_values::FULL[..], &p_values::FULL_NODOCS[..]] {
+        let mut sets: Vec<Vec<&'static str>> = vec![p_values::FULL.to_vec(), p_values::FULL_NODOCS.to_vec()];
+        sets.extend(p_features::quick_sets());
+        sets.push(vec!["bit-vec"]);
+        sets.push(vec!["bit-vec", "std", "serde"]);
+        for f in &sets {
             if let Err(e) = farm::anchor(f) {
                 eprintln!("{e}");
                 std::process::exit(2);
